@@ -133,6 +133,31 @@ def allLoaded (fs : List PlatformFile) : List Loaded := fs.flatMap PlatformFile.
 def lookupLoaded (fs : List PlatformFile) (file variant : String) : Option Loaded :=
   (allLoaded fs).find? fun l => l.file == file && l.variant == variant
 
+/-! ## loads over a history
+
+`NewPlatform` / `NewPlatformVariant` read the embedded bytes and parse them on every call: the
+instance a caller receives is its own, and whatever the caller does to it (any in-place mutation of
+the level map, the level structs, the failure strings, the step lists) stays with that instance. -/
+
+/-- one earlier load: which definition was asked for, and what its holder then did to it -/
+structure LoadEvent where
+  file : String
+  variant : String
+  mutate : Def → Def
+
+def loadDef (fs : List PlatformFile) (file variant : String) : Option Def :=
+  (lookupLoaded fs file variant).map (·.d)
+
+/-- the instances handed out so far, as their holders have left them -/
+def liveInstances (fs : List PlatformFile) : List LoadEvent → List (Option Def)
+  | [] => []
+  | e :: t => (loadDef fs e.file e.variant).map e.mutate :: liveInstances fs t
+
+/-- a load after a history: (the new instance, the instances alive before it) -/
+def loadAfter (fs : List PlatformFile) (hist : List LoadEvent) (file variant : String) :
+    Option Def × List (Option Def) :=
+  (loadDef fs file variant, liveInstances fs hist)
+
 /-! ## what `setDriver` does with a definition -/
 
 inductive DriverKind | generic | network | none
